@@ -122,7 +122,7 @@ struct Bfs {
 		return s;
 	}
 	// Runs history h then op (op<0: none). Returns false if a violation was recorded. key = hash of canon after.
-	bool run_one(const Hist& h, int op, H128* key, bool report = true, const char* predicted = 0) {
+	bool run_one(const Hist& h, int op, H128* key, bool report = true, const char* predicted = 0, bool retry = false) {
 		Hist full = h;
 		if (op >= 0) full.push_back((uint16_t)op);
 		std::string kase = label + ":" + hist_str(full);
@@ -148,6 +148,7 @@ struct Bfs {
 		if (ok && have_asan()) {
 			add(c_leakchk);
 			uint64_t after = heap_bytes();
+			if (after != base && !retry) return run_one(h, op, key, report, predicted, true); // lazily built statics allocate once: only a delta that repeats is a leak
 			if (after != base) { ok = false; sig = "leak"; desc = fmt("allocated bytes %+lld after dropping everything", (long long)(after - base)); }
 		}
 		add(c_traces);
